@@ -1,6 +1,67 @@
-(* C10 — placeholder while the refinement proof is being built *)
-From KV Require Import Bytes GenConsts Chunk Record Engine Index.
+(* C10 — Iterators, ListKeys and Fold enumerate a sorted, complete, stable snapshot.
+   Property theorems only; the model is model/Index.v, the proofs are in proofs/IndexProofs.v. *)
+From Coq Require Import Sorting.Sorted.
+From KV Require Import Bytes GenConsts Chunk Record Engine Index AMapLemmas IndexProofs.
 Open Scope N_scope.
-Example c10_smoke : True. Proof. exact I. Qed.
-Theorem C10_placeholder : True. Proof. exact I. Qed.
-Print Assumptions C10_placeholder.
+
+(* For every index content [ix] (the ordered map of the engine model), EVERY assignment of keys to
+   shards [shf] and every shard count n > 0, each of the three kinds of shard iterator, both
+   directions, every prefix, and every call sequence over Rewind / Seek t / Next in which each Seek
+   target lies at or ahead of the cursor in iteration order ([legal]; no condition once the iterator is
+   exhausted): (Valid, Key, position of Value) at creation and after every call are those of the
+   reference iterator - a cut into [refF]: the snapshot in iteration order restricted to the keys
+   with the prefix, where Rewind = everything, Next = everything after the current key, Seek t =
+   everything at or after t. *)
+Theorem C10_iterator_refines_reference :
+  forall shf n, (0 < n)%nat -> forall kind rev prefix ix, sorted ix -> forall ops,
+    legal rev (refF rev prefix ix) CAll ops ->
+    let d0 := di_new kind rev prefix (shards_of shf n rev ix) in
+    di_obs d0 = r_obs rev (refF rev prefix ix) CAll /\
+    di_run d0 ops = rrun rev (refF rev prefix ix) CAll ops.
+Proof. intros shf n Hn kind rev prefix ix Hix ops. exact (iterator_refines shf n Hn kind rev prefix ix Hix ops). Qed.
+Print Assumptions C10_iterator_refines_reference.
+
+(* What the reference yields: after k calls of Next a fresh (or rewound) iterator stands on the k-th
+   element of the ordered, prefix-filtered snapshot - every key once, ascending (descending when
+   reversed), nothing else, then exhausted ... *)
+Theorem C10_every_key_once_in_order :
+  forall rev L, ordered rev L -> forall k, robs rev L (cut_after rev L CAll (nexts k)) = nth_error L k.
+Proof. exact traversal. Qed.
+Print Assumptions C10_every_key_once_in_order.
+
+(* ... and Seek t on a fresh or rewound iterator positions it on the first key >= t (<= t reversed). *)
+Theorem C10_seek_positions_at_first_key_at_or_after :
+  forall rev L t, robs rev L (CGe t) = hd_error (filter (fun x => at_or_after rev t (fst x)) L).
+Proof. exact seek_first. Qed.
+Print Assumptions C10_seek_positions_at_first_key_at_or_after.
+
+(* the snapshot an iterator walks is ordered: the premise of the two theorems above *)
+Theorem C10_snapshot_is_ordered :
+  forall rev prefix ix, sorted ix -> ordered rev (refF rev prefix ix).
+Proof. intros rev prefix ix H. unfold refF. apply ordered_filter. exact (ordered_of_sorted rev ix H). Qed.
+Print Assumptions C10_snapshot_is_ordered.
+
+(* ListKeys (and Fold, which reads the value of every key of the same walk) visit the same complete
+   ordered snapshot: the forward snapshot without prefix is the index itself *)
+Theorem C10_listkeys_is_the_forward_snapshot :
+  forall d, db_list_keys d = map fst (refF false [] (d_index d)).
+Proof.
+  intros d. unfold db_list_keys, refF, snap. f_equal. symmetry.
+  induction (d_index d) as [|x l IH]; [reflexivity|]. cbn [filter has_prefix]. f_equal. exact IH.
+Qed.
+Print Assumptions C10_listkeys_is_the_forward_snapshot.
+
+(* Non-vacuity: seven keys in four shards, a descending iterator with prefix "a", a legal sequence with
+   two Seeks in a row, a Seek after Next and a Rewind after exhaustion. *)
+Definition p0 : pos := mkPos 0 0 0 1.
+Definition c10_ix : list (bytes * pos) :=
+  [([97], p0); ([97; 97], p0); ([97; 98], p0); ([97; 98; 99], p0); ([98], p0); ([98; 97], p0); ([99], p0)].
+Definition c10_shf (k : bytes) : nat := N.to_nat (fold_left N.add k 0).
+Definition c10_ops : list iop := [INext; ISeek [97; 98]; ISeek [97; 97; 122]; INext; INext; INext; IRewind; INext].
+Example c10_runs :
+  let L := refF true [97] c10_ix in
+  legal true L CAll c10_ops /\
+  di_run (di_new KBTree true [97] (shards_of c10_shf 4 true c10_ix)) c10_ops = rrun true L CAll c10_ops /\
+  map (fun o => option_map fst (snd o)) (rrun true L CAll c10_ops) =
+    [Some [97; 98]; Some [97; 98]; Some [97; 97]; Some [97]; None; None; Some [97; 98; 99]; Some [97; 98]].
+Proof. vm_compute. repeat split; try reflexivity; intros x H; try discriminate H; injection H as <-; reflexivity. Qed.
